@@ -441,7 +441,7 @@ func c01Test(t *testing.T, shape string) {
 	rapid.Check(t, func(rt *rapid.T) {
 		c := genC01(rt, shape)
 		v, labels, nt, inc := runC01(c)
-		if inc {
+		if inc || (v != nil && vFlapsSinceMark() > 0) {
 			col.Inconclusive()
 			return
 		}
